@@ -785,6 +785,35 @@ def reader_checks(ctx, v, W, doc):
 
 READ_CALLS = ('yytbl_read8', 'yytbl_read16', 'yytbl_read32', 'yytbl_hdr_read', 'yytbl_data_load', 'fread')
 
+def r9_sign(ctx, v):
+    """R9: narrow table elements are widened with their sign.  The writer truncates signed 32-bit table values to the
+    on-disk width (full and fast tables hold negative entries); in yytbl_data_load every value read through
+    yytbl_read8 / yytbl_read16 into a temporary and then widened must be sign-extended (sext), never zero-extended:
+    a zero-extended -1 arrives as 65535 in a 32-bit in-memory table (-Ca) and the scanner indexes outside it."""
+    rep = ctx.rep
+    mod = variants.module(v)
+    f = vfn(mod, 'yytbl_data_load')
+    if f is None: return 0
+    res = Resolver(f); n = 0
+    for c in f.ins:
+        if c.op != 'call' or norm(c.callee or '') not in ('yytbl_read8', 'yytbl_read16'): continue
+        tmp = res.loc(c.ops[0])
+        if tmp[0] != 'local': continue
+        width = 8 if norm(c.callee).endswith('8') else 16
+        # widenings of loads of the temporary
+        for x in f.ins:
+            if x.op not in ('sext', 'zext'): continue
+            d = f.def_of(x.ops[0])
+            if d is None or d.op != 'load' or res.loc(d.ops[0]) != tmp: continue
+            n += 1
+            key = 'C15.R9:%s:yytbl_data_load:widen%d' % (SKEL, width)
+            if x.op == 'sext':
+                rep.ok('C15.R9', '%s yytbl_data_load: the %d-bit temporary %s is sign-extended@%s' % (v.name, width, tmp[1], x.line))
+            else:
+                fail(rep, 'C15.R9', key, where(x), 'yytbl_data_load widens the %d-bit value read by %s with zero extension (the temporary %s is unsigned): negative table entries, '
+                     'which full and fast tables contain, arrive as large positive numbers in a 32-bit in-memory table [variant %s]' % (width, c.callee, tmp[1], v.name), variant=v.describe())
+    return n
+
 def r8_counter_reset(rep, prog, fn, tag):
     """bread counts the bytes of the current table set (the load loop compares it with th_ssize, padding is computed
     from it): every yytbl_hdr_read call - the first one and each later one in the search for the wanted set - must
@@ -1429,6 +1458,7 @@ def run(ctx):
         if not en: rep.broken('no yytbl enumerators in the debug info of variant %s' % v.name)
         check_enums(rep, v.name, SKEL, en, doc)
         r6(ctx, v)
+        r9_sign(ctx, v)
     seen_ids, decided = r3_r4(ctx, vs, sites, symmap, idname)
     for i in all_written:
         key = 'C15.R3:%s:yydmap:never:%s' % (SKEL, idname(i))
@@ -1442,6 +1472,7 @@ def run(ctx):
     rep.setcount('variant_table_pairs_decided', decided)
 
     rep.floor('C15.R1', 25 + 22 * len(vs), 'writer: 3+2 primitives x2, 4+4 fields, 3 arms, strings, pad, patch, hsize; per variant: 6 primitive checks, 8 fields, 3 arms, 14, bread, 2 pad')
+    rep.floor('C15.R9', 2 * len(vs), 'the 8- and the 16-bit temporary of yytbl_data_load in every variant')
     rep.floor('C15.R2', 2 + 2 * len(vs), 'write16/32 and read16/32 of every variant')
     rep.floor('C15.R3', 12 + 10 * len(vs), 'ids written, per-variant written/expected pairs, terminators, yydmap hand-over')
     rep.floor('C15.R4', 4 * len(vs), 'yydmap entries of the tables variants (2-8 each; 104 in 20 variants today) (+1: the coupled type symbols in the generator)')
